@@ -31,6 +31,8 @@ def plan(tier, seed):
         specs.append({'kind': 'components', 'version': v})
     n = 64 if tier == 'quick' else 1000
     specs.append({'kind': 'open', 'n': n})
+    for v in tables.versions():
+        specs.append({'kind': 'site', 'version': v, 'n': 40 if tier == 'quick' else 1500})
     if tier == 'thorough':
         for v in tables.versions():
             specs.append({'kind': 'sets', 'version': v, 'n': 3000})
@@ -469,8 +471,86 @@ def run_sets(spec, rec):
                           row='%s|%s|set' % (v, seg))
 
 
+def run_site(spec, rec):
+    """a site configured with its own default delimiters and then its default version (the two settings are independent):
+    values assigned by name to repeated and single fields sit at their positions in the site's own encoding and in an encoding
+    with another set given to to_er7(), and parsing either text with the set it was written in yields them under their names"""
+    import hl7apy
+    from hl7apy import core, parser
+    v = spec['version']
+    rng = gen.rng_for(spec['seed'], 'c02-site', v)
+    base = (hl7apy.get_default_version(), dict(hl7apy.get_default_encoding_chars()))
+    segs = {s: [r for r in gen.usable_rows(v, s)] for s, rows in tables.segments(v).items() if rows and s != 'MSH'}
+    names = sorted(s for s in segs if [r for r in segs[s] if r.card[1] == -1] and len(segs[s]) >= 2)
+    try:
+        for it in range(spec['n']):
+            site = gen.delimiter_set(rng, v, with_truncation=False)
+            other = gen.delimiter_set(rng, v, with_truncation=False)
+            if other['REPETITION'] == site['REPETITION'] or other['FIELD'] == site['FIELD']:
+                continue
+            hl7apy.set_default_encoding_chars(dict(site))
+            hl7apy.set_default_version(v)
+            if er7ref.vkey(v) >= (2, 7):
+                # from v2.7 the library keeps a second default set (with the truncation character) that the setter does not
+                # replace: parentless elements of those versions use that one - the set in force is read, not prescribed
+                site = {k: x for k, x in hl7apy.get_default_encoding_chars(v).items() if k != 'TRUNCATION'}
+                if other['REPETITION'] == site['REPETITION'] or other['FIELD'] == site['FIELD']:
+                    continue
+            seg = rng.choice(names)
+            rep = rng.choice([r for r in segs[seg] if r.card[1] == -1])
+            single = rng.choice([r for r in segs[seg] if r.name != rep.name])
+            case = {'kind': 'site', 'version': v, 'segment': seg, 'repeated': rep.name, 'single': single.name,
+                    'site_set': site, 'other_set': other}
+            rec.evaluation(('site', v, seg, rep.name, single.name, it))
+            try:
+                s = core.Segment(seg, validation_level=2)          # version and delimiters: the site's defaults
+                marks = set(site.values()) | set(other.values())
+                wit = lambda r, k: ''.join(ch for ch in '%s%d' % (gen.witness(v, r.datatype if r.kind == 'leaf' else
+                                                                             _first_leaf_dt(v, r.datatype)), k)
+                                           if ch not in marks) or 'x'
+                textual = lambda r: (r.datatype if r.kind == 'leaf' else _first_leaf_dt(v, r.datatype)) in \
+                    ('ST', 'TX', 'FT', 'ID', 'IS')
+                vals = [wit(rep, 1) if textual(rep) else gen.witness(v, _first_leaf_dt(v, rep.datatype) if rep.kind != 'leaf'
+                                                                      else rep.datatype),
+                        wit(rep, 2) if textual(rep) else gen.witness(v, _first_leaf_dt(v, rep.datatype) if rep.kind != 'leaf'
+                                                                      else rep.datatype),
+                        wit(single, 3) if textual(single) else gen.witness(v, _first_leaf_dt(v, single.datatype)
+                                                                           if single.kind != 'leaf' else single.datatype)]
+                if any(set(x) & marks for x in vals):
+                    rec.count('site_cases_skipped_value_holds_a_delimiter')
+                    continue
+                setattr(s, rep.name.lower(), vals[0])
+                s.add_field(rep.name).value = vals[1]
+                setattr(s, single.name.lower(), vals[2])
+                want = sorted([((rep.num, 1, 1, 1), vals[0]), ((rep.num, 2, 1, 1), vals[1]), ((single.num, 1, 1, 1), vals[2])])
+                for which, ec in (('site', site), ('given', other)):
+                    er = s.to_er7() if which == 'site' else s.to_er7(gen.full_ec(other))
+                    lv = sorted(er7ref.leaves(er7ref.tokenize_segment(er, ec)[1]))
+                    rec.count('site_positions_tokenized', len(want))
+                    if lv != want:
+                        rec.violation('wrong-position-under-%s-delimiters' % which, case, {'encoded': er[:200], 'leaves': str(lv)[:200]})
+                        break
+                    s2 = parser.parse_segment(er) if which == 'site' else \
+                        parser.parse_segment(er, version=v, encoding_chars=gen.full_ec(other))
+                    got = sorted([(n, [c.to_er7(ec if which == 'given' else None) for c in s2.children.indexes.get(n, [])])
+                                  for n in (rep.name, single.name)])
+                    if got != sorted([(rep.name, vals[:2]), (single.name, vals[2:])]):
+                        rec.violation('value-not-found-under-its-name-after-parse:%s-delimiters' % which, case,
+                                      {'text': er[:200], 'found': str(got)[:200]})
+                        break
+                else:
+                    rec.count('site_cases')
+            except Exception as e:
+                rec.violation('site-raised:%s' % type(e).__name__, case, {'exc': repr(e)[:200]})
+    finally:
+        hl7apy.set_default_version(base[0])
+        hl7apy.set_default_encoding_chars(base[1])
+    rec.seen('versions_site', v)
+
+
 def run_shard(spec, rec):
-    {'fields': run_fields, 'components': run_components, 'open': run_open, 'sets': run_sets}[spec['kind']](spec, rec)
+    {'fields': run_fields, 'components': run_components, 'open': run_open, 'sets': run_sets,
+     'site': run_site}[spec['kind']](spec, rec)
 
 
 def replay(case, rec):
@@ -492,6 +572,9 @@ def replay(case, rec):
         check_component_row(core, parser, v, dt, crow, case.get('host'), rec)
     elif k == 'open':
         check_open(core, parser, v, case['segment'], case['indices'], case['level'], rec)
+    elif k == 'site':
+        for sd in range(3):
+            run_site({'version': v, 'n': 60, 'seed': sd}, rec)
     elif k == 'sets':
         rec.inconclusive_reason('sets cases replay through the thorough tier with the same seed')
 
@@ -510,6 +593,8 @@ def floors(tier, m):
         out.append('tokenizer decided too few positions: %s' % c)
     if c.get('refused_reassignments', 0) < 10000 or c.get('datatype_overrides_on_scratch_components', 0) < 300:
         out.append('hostile histories (refused re-assignment, datatype override on another object) too rare: %s' % c)
+    if c.get('site_cases', 0) < 200 or len(m['seen'].get('versions_site', ())) != len(tables.versions()):
+        out.append('site-default delimiters: %s cases' % c.get('site_cases'))
     if c.get('open_ended_positions_checked', 0) < 1000:
         out.append('open-ended segments: too few positions checked')
     return out
